@@ -73,8 +73,15 @@ Definition c05_ok (c : acase) : bool :=
   && c09_ok_case c.      (* fresh World per attempt *)
 
 (* C10: nothing reaches the process panic hook during the run, the hook is restored, the run closes *)
+Definition unrecoverable : N := 999999.     (* what the harness reports for a payload it cannot downcast *)
+Definition payload_recovered (e : ev) : bool :=
+  match e with
+  | EvScen _ _ _ _ (ScBg _ (StFailed (EPanic p))) | EvScen _ _ _ _ (ScStep _ (StFailed (EPanic p)))
+  | EvScen _ _ _ _ (ScHook _ (HFailed p)) => negb (p =? unrecoverable)
+  | _ => true
+  end.
 Definition c10_ok (c : acase) : bool :=
-  (ac_hook_during c =? 0) && ac_hook_restored c && framed c
+  (ac_hook_during c =? 0) && ac_hook_restored c && framed c && forallb payload_recovered (ac_stream c)
   && forallb (fun g => wf_events (has_before c) (has_after c) (decl_of (first_input c)) (snd g)) (groups c).
 
 Definition verdict_with (mon : acase -> bool) (id : N) (c : acase) : list (list N) :=
